@@ -437,6 +437,22 @@ def c11(tier, repo=None):
                                          "data-race freedom itself is not a trace property: the thorough tier additionally runs the replay under the Go race detector"])
 
 
+def wide_fanout_scenarios():
+    """A node with a branch AND 3 / 5 / 6 / 7 plain successors (the compiled successor slices then have spare capacity), different
+    branch outcomes per concurrent run: per-run routing must not go through memory shared by the runs of one compiled graph."""
+    out = []
+    names = ["b", "c", "d", "e", "f", "g", "h"]
+    for width in (3, 5, 6, 7):
+        for mode in ("pregel", "dag"):
+            succ = names[:width]
+            nodes = ["a"] + succ + ["y", "z"]
+            edges = [["start", "a", "cd"]] + [["a", n, "cd"] for n in succ] + [[n, "end", "cd"] for n in succ] + [["y", "end", "cd"], ["z", "end", "cd"]]
+            out.append({"mode": mode, "nodes": nodes, "edges": edges, "fam": "wide",
+                        "branches": [{"from": "a", "ends": ["y", "z"], "multi": False, "pol": [["y"], ["z"], ["y"], ["z"]]}],
+                        "max": 0, "before": [], "after": [], "rerun": [], "state": False, "fail": []})
+    return [copy.deepcopy(sc) for _ in range(6) for sc in out]
+
+
 def c09(tier, repo=None):
     """Graph level: one compiled runnable driven by N concurrent logical runs; every run must be, by the rule, the run it would
     have been alone (own input term, own state, own checkpoint id).  Agent level (ReAct, host multi-agent): lib/checks_agents.py.
@@ -447,8 +463,8 @@ def c09(tier, repo=None):
     log("[C09] tier=%s seed=%d repo=%s" % (tier, vlib.SEED, repo or vlib.REPO))
     states, trans, model_runs = model_check(["MC_EinoRun_pregel2.cfg"], timeout=900)
     quick = tier == "quick"
-    fams = [("cp2", consts("pregel", 2, 3, 1, 2, marks=1, rerun=True, maxchoice=(3,)), {}),
-            ("cd3", consts("dag", 3, 4, 1, 0, marks=1, rerun=True, multi=True), {}),
+    fams = [("cp2", consts("pregel", 2, 3, 1, 2, marks=2, rerun=True, maxchoice=(3,)), {}),
+            ("cd3", consts("dag", 3, 4, 1, 0, marks=2, rerun=True, multi=True), {}),
             ("cw3", consts("wf", 3, 4, 0, 0, marks=1), {})]
     scs = []
     for name, c, kw in fams:
@@ -458,6 +474,7 @@ def c09(tier, repo=None):
     rnd.shuffle(scs)
     scs = scs[: 2500 if quick else 20000]
     scs += nest(scs, rnd, 0.15, True)
+    scs += wide_fanout_scenarios()
     engine.decorate(scs, seed=vlib.SEED, state_variants=True, noid_frac=0.05)
     for sc in scs:
         if rnd.random() < 0.4:          # not every scenario stateful
